@@ -45,6 +45,23 @@ def step (t : List String) : String :=
           let rep := if dir == "inv" then psfToPupil dx N.toFloat lam efl else focusDx dx N.toFloat lam efl
           s!"{fmtFloat rep} {fmtGrid out}"
       | _, _, _, _, _ => "bad-op"
+  | "F2" :: dir :: m :: n :: rest =>
+      -- the 2-D physical integral `Model.C03.F2` itself at continuous output coordinates (eta, xi)
+      match m.toNat?, n.toNat?, floats? rest with
+      | some m, some n, some (dx :: lam :: z :: eta :: xi :: data) =>
+          if data.length ≠ 2 * m * n then "bad-op" else
+          let f := parseGrid m n data
+          let c : C := F2 (if dir == "inv" then eI else eF) m n dx (1.0 / (lam * z)) (fun j i => getC f j i) eta xi
+          s!"{fmtFloat c.re} {fmtFloat c.im}"
+      | _, _, _ => "bad-op"
+  | ["tilt", n, k] =>
+      -- `Model.C03.tilt`: k waves of tilt across the n samples of an axis
+      match n.toNat?, floats? [k] with
+      | some n, some [k] =>
+          " ".intercalate ((List.range n).flatMap fun i =>
+            let c : C := tilt eF n k i
+            [fmtFloat c.re, fmtFloat c.im])
+      | _, _ => "bad-op"
   | _ => "bad-op"
 
 def main : IO Unit := mainLoop step
